@@ -1,8 +1,84 @@
+import NaijaVerif.Model.Depth
+import NaijaVerif.Gen.Stack
 import NaijaVerif.Driver.Util
-/-! Family `depth` — stub (replaced by the unit that owns this family). -/
+
+/-! Line protocol `depth` (names are Rust function names):
+```
+budget                      -> <STACK_BUDGET in bytes>
+guard <fn>                  -> 1 | 0           does <fn> probe the stack on entry (model: guarded frame)
+rec <fn>                    -> 1 | 0           is <fn> a frame of the model's recursive core
+path <f1>,<f2>,…            -> ok frames=<n> guarded=<k> maxfree=<m> | no-edge <a>-><b> | empty
+                                               (caller first; every consecutive pair must be a model edge;
+                                                maxfree = longest run of consecutive unguarded frames)
+front <stage> <fn>          -> rec=<0|1> guard=<0|1>      stage ∈ lexer parser resolver cfg (extracted tables)
+G <d> [<fn>=<cost>,…]       -> G=<n>           guard-free gap for the given frame costs (default cost 1)
+```
+-/
 namespace NaijaVerif.Driver.DepthD
+open NaijaVerif NaijaVerif.Depth NaijaVerif.Driver
+
+def nameOf (b : Bytes) : String := Bytes.toString b
+
+/-- The model graph over Rust names (the three `exec_stmt` frames collapse; folded self-loops are edges;
+a function is guarded when it contains a probe). -/
+def rustGraph : Graph Bytes :=
+  { edges := runtimeEdges.map (fun e => (e.1.rust, e.2.rust)) ++ foldedLoops,
+    guarded := fun n => probeSites.contains n }
+
+def coreNames : List Bytes :=
+  (Fn.all.filter (fun f => f != Fn.run_inner && f != Fn.drop_glue)).map Fn.rust
+
+def frontTable (stage : String) : Option (List (Bytes × List Bytes) × List Bytes) :=
+  match stage with
+  | "lexer" => some (Gen.Stack.lexerCalls, Gen.Stack.lexerGuardSites)
+  | "parser" => some (Gen.Stack.parserCalls, Gen.Stack.parserGuardSites)
+  | "resolver" => some (Gen.Stack.resolverCalls, Gen.Stack.resolverGuardSites)
+  | "cfg" => some (Gen.Stack.cfgCalls, Gen.Stack.cfgGuardSites)
+  | _ => none
+
+def bit (b : Bool) : String := if b then "1" else "0"
+
+def parseCosts (s : String) : Fn → Nat :=
+  let pairs := (s.splitOn ",").filterMap (fun kv =>
+    match kv.splitOn "=" with
+    | [k, v] => v.toNat?.map (fun n => (k, n))
+    | _ => none)
+  fun f =>
+    -- model frame names first (exec_stmt_cond …), Rust names as a fallback
+    let nm := (toString (repr f)).splitOn "." |>.getLast!
+    match pairs.find? (fun p => p.1 == nm) with
+    | some p => p.2
+    | none =>
+      match pairs.find? (fun p => p.1 == nameOf f.rust) with
+      | some p => p.2
+      | none => 1
+
+def step (_ : Unit) (line : String) : Unit × String :=
+  match words line with
+  | ["budget"] => ((), toString Gen.Stack.stackBudget)
+  | ["guard", f] => ((), bit (rustGraph.guarded (Bytes.ofString f)))
+  | ["rec", f] => ((), bit (coreNames.contains (Bytes.ofString f)))
+  | ["path", p] =>
+      let names := (p.splitOn ",").filter (· ≠ "") |>.map Bytes.ofString
+      match checkPath rustGraph names with
+      | .ok n k m => ((), s!"ok frames={n} guarded={k} maxfree={m}")
+      | .noEdge a b => ((), s!"no-edge {nameOf a}->{nameOf b}")
+      | .empty => ((), "empty")
+  | ["front", stage, f] =>
+      match frontTable stage with
+      | some (calls, sites) =>
+          let n := Bytes.ofString f
+          ((), s!"rec={bit (calls.any (fun p => p.1 == n))} guard={bit (sites.contains n)}")
+      | none => ((), "bad-op")
+  | "G" :: d :: rest =>
+      match d.toNat? with
+      | some d =>
+          let c := parseCosts (String.intercalate "," rest)
+          ((), s!"G={gap runtimeGraph (costFolded c d) runtimeRank Fn.run_inner}")
+      | none => ((), "bad-op")
+  | _ => ((), "bad-op")
 
 def main : IO Unit := do
-  IO.eprintln "family depth: not built yet"
+  loop (← IO.getStdin) (← IO.getStdout) () step
 
 end NaijaVerif.Driver.DepthD
